@@ -445,7 +445,7 @@ def push_cases(rng, n):
         cases.append({"id": "push-%05d" % i, "family": "push", "S": S, "opts": opts(validate=rng.choice(["none", "all"]))})
         i += 1
     pats = [["none"], ["direct"], ["helper"], ["nested"], ["nested", "none"], ["none", "nested"], ["direct", "nested", "none"], ["helper", "direct"]]
-    stage_sets = [["vertex"], ["fragment"], ["compute"], ["vertex", "fragment"], ["fragment", "vertex"], ["vertex", "fragment", "compute"],
+    stage_sets = [[], ["vertex"], ["fragment"], ["compute"], ["vertex", "fragment"], ["fragment", "vertex"], ["vertex", "fragment", "compute"],
                   ["compute", "compute"], ["fragment", "fragment", "vertex"], ["vertex", "compute"]]
     # every leaf type once with every usage pattern class
     for t in leafs:
